@@ -32,6 +32,8 @@ struct LThread {
     int prio = 0;
     int gate_count = 0;    // gate_at: scheduling points left until the gate applies
     Enabled gate_until;
+    int gate2_count = 0;   // gate_also: a second, independent gate
+    Enabled gate2_until;
     bool gated = false;    // parked at the scheduling point the gate applies to
     std::condition_variable cv;
 };
@@ -269,11 +271,17 @@ int sched(const Enabled& en)
     }
     std::unique_lock<std::mutex> lk(S.G);
     auto& me = *S.th[t_self];
-    if (me.gate_count > 0 && --me.gate_count == 0 && me.gate_until) {
+    bool hit1 = me.gate_count > 0 && --me.gate_count == 0 && me.gate_until;
+    bool hit2 = me.gate2_count > 0 && --me.gate2_count == 0 && me.gate2_until;   // second gate (gate_also)
+    if (hit1 || hit2) {
         // directed path forcing: this scheduling point is additionally blocked until the gate opens
-        Enabled g = me.gate_until;
+        Enabled g = hit1 ? me.gate_until : me.gate2_until;
+        if (hit1) {
+            me.gate_until = nullptr;
+        } else {
+            me.gate2_until = nullptr;
+        }
         Enabled e0 = en;
-        me.gate_until = nullptr;
         me.en = [g, e0] { return g() != 0 ? e0() : int(DIS); };
         me.gated = true;
     } else {
@@ -302,6 +310,13 @@ void gate_at(int k, const Enabled& until)
     }
 }
 
+void gate_also(int k, const Enabled& until)
+{
+    if (S.running && t_self != 0) {
+        S.th[t_self]->gate2_count = k;
+        S.th[t_self]->gate2_until = until;
+    }
+}
 bool at_gate(int tid)
 {
     return S.running && tid > 0 && size_t(tid) < S.th.size() && S.th[size_t(tid)]->gated;
@@ -341,6 +356,24 @@ static thread_local int t_in_tap = 0;
 // the same thread's next event (by then the store instruction has executed)
 static thread_local void* t_pend_addr = nullptr;
 static thread_local unsigned t_pend_size = 0;
+// opt-in (tap_opts): print 8-byte values as canonical names (pointers into registered objects, "null", "?k") instead
+// of raw numbers; make every tapped access a scheduling point (taken BEFORE the access executes)
+static bool g_tap_names = false;
+static bool g_tap_sched = false;
+void tap_opts(bool value_names, bool sched_points)
+{
+    g_tap_names = value_names;
+    g_tap_sched = sched_points;
+}
+static std::string tap_value(const void* a, unsigned size)
+{
+    uint64_t v = 0;
+    memcpy(&v, a, size);
+    if (g_tap_names && size == 8) {
+        return name_of(reinterpret_cast<const void*>(static_cast<uintptr_t>(v)));
+    }
+    return std::to_string(static_cast<long long>(v));
+}
 
 void tap_add(const void* p, size_t n)
 {
@@ -364,6 +397,8 @@ void tap_clear()
 {
     g_nranges = 0;
     g_tap_on = false;
+    g_tap_names = false;
+    g_tap_sched = false;
 }
 
 static void flush_pending_store()
@@ -376,9 +411,7 @@ static void flush_pending_store()
     t_pend_addr = nullptr;
     std::string line = "pst " + name_of(a) + " " + std::to_string(size);
     if (size <= 8) {
-        uint64_t v = 0;
-        memcpy(&v, a, size);
-        line += " " + std::to_string(static_cast<long long>(v));
+        line += " " + tap_value(a, size);
     }
     S.res.trace.push_back(std::to_string(t_self) + " " + line);
 }
@@ -393,15 +426,16 @@ void tap_access(void* a, unsigned size, bool write)
         if (x >= g_ranges[i].lo && x < g_ranges[i].hi) {
             ++t_in_tap;
             flush_pending_store();
+            if (g_tap_sched) {
+                sched();
+            }
             if (write) {
                 t_pend_addr = a;
                 t_pend_size = size;
             } else {
                 std::string line = "pld " + name_of(a) + " " + std::to_string(size);
                 if (size <= 8) {
-                    uint64_t v = 0;
-                    memcpy(&v, a, size);
-                    line += " " + std::to_string(static_cast<long long>(v));
+                    line += " " + tap_value(a, size);
                 }
                 S.res.trace.push_back(std::to_string(t_self) + " " + line);
             }
